@@ -249,6 +249,24 @@ def build_request(files, to_generate=None, parameter="transport=grpc+rest"):
     return req
 
 
+PANDOC_STUB_NOTE = ("pypandoc.convert_text replaced by the identity while rendering (no pandoc binary in the "
+                    "sandbox): only docstring text of comments containing RST/markdown mark-up is affected")
+
+
+class _no_pandoc:
+    """There is no pandoc binary: comments with mark-up characters keep their text unchanged."""
+
+    def __enter__(self):
+        import pypandoc
+        self._old = pypandoc.convert_text
+        pypandoc.convert_text = lambda text, to=None, format=None, extra_args=(), **kw: text
+        return self
+
+    def __exit__(self, *a):
+        import pypandoc
+        pypandoc.convert_text = self._old
+
+
 def generate(files, parameter="transport=grpc+rest", to_generate=None, service_yaml=None,
              retry_config=None, write=True, quiet=True):
     """Run the real gapic pipeline of the current /repo tree in-process."""
@@ -270,7 +288,7 @@ def generate(files, parameter="transport=grpc+rest", to_generate=None, service_y
             json.dump(retry_config, f)
         param += f",retry-config={p}"
     req = build_request(files, to_generate, param)
-    with warnings.catch_warnings():
+    with warnings.catch_warnings(), _no_pandoc():
         if quiet:
             warnings.simplefilter("ignore")
         opts = Options.build(req.parameter)
